@@ -1,11 +1,25 @@
 (* Properties of [read] (static_code.go: func (p *parser) read()). *)
-From PV Require Import Lib.Base Lib.Utf8 Syntax.RGrammar Syntax.Code Model.PState Model.Runtime Proofs.Utf8Proofs.
+From PV Require Import Lib.Base Lib.Utf8 Syntax.RGrammar Syntax.Code Model.PState Spec.Pos Model.Runtime Proofs.Utf8Proofs.
 Local Open Scope nat_scope.
 
 (* A savepoint is coherent with the input when its cached suffix is data[offset:]
    and (rn, w) is what DecodeRune returns there. *)
 Definition sp_ok (d : bytes) (p : savepoint) : Prop :=
   sp_rest p = skipn (offset (sp_pos p)) d /\ (sp_rn p, sp_w p) = decode (sp_rest p).
+
+Lemma adv_facts p :
+  sp_rest (adv p) = skipn (sp_w p) (sp_rest p) /\
+  offset (sp_pos (adv p)) = offset (sp_pos p) + sp_w p /\
+  (sp_rn (adv p), sp_w (adv p)) = decode (sp_rest (adv p)).
+Proof.
+  unfold adv. destruct (decode (skipn (sp_w p) (sp_rest p))) as [rn n] eqn:Hd.
+  destruct (Z.eqb rn 10); cbn; rewrite ?Hd; auto.
+Qed.
+
+Lemma read_pt_adv c s : pt (read c s) = adv (pt s).
+Proof.
+  unfold read. destruct (Z.eqb _ _ && Nat.eqb _ _); [destruct (o_allowinvalid (cO c))|]; reflexivity.
+Qed.
 
 Lemma read_pt c s :
   let p := pt s in
@@ -14,10 +28,7 @@ Lemma read_pt c s :
   offset (sp_pos (pt (read c s))) = offset (sp_pos p) + sp_w p /\
   (sp_rn (pt (read c s)), sp_w (pt (read c s))) = decode rest'.
 Proof.
-  cbv zeta. unfold read.
-  destruct (decode (skipn (sp_w (pt s)) (sp_rest (pt s)))) as [rn n] eqn:Hd.
-  destruct (Z.eqb rn 10); destruct (Z.eqb rn RuneError && Nat.eqb n 1);
-    try destruct (o_allowinvalid (cO c)); cbn; auto.
+  cbv zeta. rewrite read_pt_adv. destruct (adv_facts (pt s)) as (A & B & C). rewrite <- A. auto.
 Qed.
 
 Lemma skipn_skipn' {A} (n m : nat) (l : list A) : skipn n (skipn m l) = skipn (m + n) l.
@@ -45,15 +56,15 @@ Lemma read_errs c s :
                pe_pos e = sp_pos (pt (read c s)))
   \/ ((decode rest' <> (RuneError, 1) \/ o_allowinvalid (cO c) = true) /\ errs (read c s) = errs s).
 Proof.
-  cbv zeta. unfold read.
-  destruct (decode (skipn (sp_w (pt s)) (sp_rest (pt s)))) as [rn n] eqn:Hd.
-  destruct (Z.eqb_spec rn RuneError) as [Er|Er]; destruct (Nat.eqb_spec n 1) as [En|En]; cbn [andb].
+  cbv zeta. destruct (adv_facts (pt s)) as (A & _ & C). rewrite <- A, <- C.
+  unfold read.
+  destruct (Z.eqb_spec (sp_rn (adv (pt s))) RuneError) as [Er|Er];
+    destruct (Nat.eqb_spec (sp_w (adv (pt s))) 1) as [En|En]; cbn [andb].
   - destruct (o_allowinvalid (cO c)) eqn:Ha.
-    + right. split; [right; reflexivity|]. destruct (Z.eqb rn 10); reflexivity.
-    + left. subst. split; [reflexivity|]. split; [reflexivity|].
-      destruct (Z.eqb RuneError 10) eqn:E10; [discriminate|].
+    + right. split; [right; reflexivity|]. reflexivity.
+    + left. rewrite Er, En. split; [reflexivity|]. split; [reflexivity|].
       eexists. split; [reflexivity|]. split; reflexivity.
-  - right. split; [left; intros E; inversion E; contradiction|]. destruct (Z.eqb rn 10); reflexivity.
-  - right. split; [left; intros E; inversion E; contradiction|]. destruct (Z.eqb rn 10); reflexivity.
-  - right. split; [left; intros E; inversion E; contradiction|]. destruct (Z.eqb rn 10); reflexivity.
+  - right. split; [left; intros E; inversion E; contradiction|]. reflexivity.
+  - right. split; [left; intros E; inversion E; contradiction|]. reflexivity.
+  - right. split; [left; intros E; inversion E; contradiction|]. reflexivity.
 Qed.
